@@ -128,6 +128,16 @@ func Parse(block []rune, pos int) (pt ParsedTokens, syntaxHighlighted string) {
 		return false
 	}
 
+	// a flow token (or the start of a block) ends the command name being read even
+	// when no white space precedes it: judge that name now, and do not let the
+	// next command's name be appended to it
+	endFunc := func() {
+		if readFunc {
+			readFunc = false
+			pt.Unsafe = isCmdUnsafe(pt.FuncName) || pt.Unsafe
+		}
+	}
+
 	for ; i < len(block); i++ {
 		if pt.Comment {
 			pt.commentMsg = append(pt.commentMsg, block[i])
@@ -367,6 +377,7 @@ func Parse(block []rune, pos int) (pt ParsedTokens, syntaxHighlighted string) {
 					pt.PipeToken = PipeTokenGeneric
 				}
 				pt.pop = &pt.FuncName
+				endFunc()
 				pt.LastFuncName = pt.FuncName
 				pt.Parameters = make([]string, 0)
 				if strings.HasSuffix(syntaxHighlighted, string(block[i-1])) {
@@ -431,6 +442,7 @@ func Parse(block []rune, pos int) (pt ParsedTokens, syntaxHighlighted string) {
 				pt.SquareBracket = false
 				pt.PipeToken = PipeTokenPosix
 				pt.pop = &pt.FuncName
+				endFunc()
 				pt.LastFuncName = pt.FuncName
 				pt.Parameters = make([]string, 0)
 				if next('>') {
@@ -475,6 +487,7 @@ func Parse(block []rune, pos int) (pt ParsedTokens, syntaxHighlighted string) {
 				pt.SquareBracket = false
 				pt.PipeToken = PipeTokenNone
 				pt.pop = &pt.FuncName
+				endFunc()
 				pt.LastFuncName = pt.FuncName
 				pt.Parameters = make([]string, 0)
 				ansiChar(hlPipe, '&', '&')
@@ -502,6 +515,7 @@ func Parse(block []rune, pos int) (pt ParsedTokens, syntaxHighlighted string) {
 				pt.SquareBracket = false
 				pt.PipeToken = PipeTokenNone
 				pt.pop = &pt.FuncName
+				endFunc()
 				pt.LastFuncName = pt.FuncName
 				pt.Parameters = make([]string, 0)
 				ansiChar(hlPipe, block[i])
@@ -526,6 +540,7 @@ func Parse(block []rune, pos int) (pt ParsedTokens, syntaxHighlighted string) {
 				pt.SquareBracket = false
 				pt.PipeToken = PipeTokenNone
 				pt.pop = &pt.FuncName
+				endFunc()
 				pt.LastFuncName = pt.FuncName
 				pt.Parameters = make([]string, 0)
 				ansiChar(hlPipe, block[i])
@@ -549,6 +564,7 @@ func Parse(block []rune, pos int) (pt ParsedTokens, syntaxHighlighted string) {
 				pt.SquareBracket = false
 				pt.PipeToken = PipeTokenNone
 				pt.pop = &pt.FuncName
+				endFunc()
 				pt.LastFuncName = pt.FuncName
 				pt.Parameters = make([]string, 0)
 				ansiChar(hlPipe, block[i:i+2]...)
@@ -563,6 +579,7 @@ func Parse(block []rune, pos int) (pt ParsedTokens, syntaxHighlighted string) {
 				pt.SquareBracket = false
 				pt.PipeToken = PipeTokenRedirect
 				pt.pop = &pt.FuncName
+				endFunc()
 				pt.LastFuncName = pt.FuncName
 				pt.Parameters = make([]string, 0)
 				pt.Unsafe = true
@@ -582,6 +599,7 @@ func Parse(block []rune, pos int) (pt ParsedTokens, syntaxHighlighted string) {
 				*pt.pop += `{`
 				syntaxHighlighted += string(block[i])
 			default:
+				endFunc()
 				pt.NestedBlock++
 				pt.ExpectFunc = true
 				pt.PipeToken = PipeTokenNone
